@@ -281,13 +281,15 @@ def r3_exact_lookup(repo=None, rid="C01.R3"):
     # callers pass exact quantities
     ncall = 0
     # private helpers that forward their own parameters to _get_file_list are lookup entry points as well
-    targets = ["self._get_file_list"]
+    base_names = ("self._get_file_list", "cls._get_file_list", "DigitalRFReader._get_file_list")     # method, classmethod, static spelling
+    targets = list(base_names)
     for q2, f2 in m.functions.items():
         if q2.startswith("DigitalRFReader._") and q2 != q:
             params = {a.arg for a in f2.args.args}
-            for c in pyfront.calls_in(f2, ("self._get_file_list",)):
+            for c in pyfront.calls_in(f2, base_names):
                 if any(isinstance(a, ast.Name) and a.id in params for a in c.args):
-                    targets.append("self." + q2.split(".", 1)[1])
+                    nm = q2.split(".", 1)[1]
+                    targets += ["self." + nm, "cls." + nm, "DigitalRFReader." + nm]
     for q2, f2 in m.functions.items():
         for c in pyfront.calls_in(f2, tuple(targets)):
             if not q2.startswith("DigitalRFReader."):
@@ -649,10 +651,23 @@ def r5_interface_agreement(repo=None):
         parsed[pyname] = (cname, [v for v, _ in vars_], pc)
     # python call sites
     ncalls = 0
-    for q, f in m.functions.items():
+    seen_sites = set()
+    for q, f0 in m.functions.items():
+        if "<locals>" in q:
+            continue
+        # with private helpers inlined: a call made through a wrapper that receives the extension function as a parameter
+        # (`self._call(_ext.rf_write, a, b)`) is judged with the arguments of each caller
+        try:
+            f = m.flat(q).fn()
+        except AnalysisError:
+            f = f0
         for c in pyfront.walk_no_nested(f):
             if isinstance(c, ast.Call):
                 d = pyfront.call_name(c) or ""
+                key_ = (d, getattr(c, "lineno", 0), getattr(c, "col_offset", 0), tuple(norm(ast.unparse(a)) for a in c.args))
+                if key_ in seen_sites:
+                    continue
+                seen_sites.add(key_)
                 if d.startswith("_py_rf_write_hdf5.") and d.split(".")[1] in parsed:
                     pyname = d.split(".")[1]
                     cname, cvars, pc = parsed[pyname]
@@ -679,7 +694,8 @@ def r5_interface_agreement(repo=None):
                             len(leafs), (" (names not comparable: %s)" % ", ".join(unk)) if unk else ""))
     mcalls = 0
     for c in ast.walk(m.tree):
-        if isinstance(c, ast.Call) and (pyfront.call_name(c) or "").startswith("_py_rf_write_hdf5."):
+        # every use of a function of the extension: called in place, or handed to a wrapper that calls it
+        if isinstance(c, ast.Attribute) and isinstance(c.value, ast.Name) and c.value.id == "_py_rf_write_hdf5" and isinstance(c.ctx, ast.Load):
             mcalls += 1
     if mcalls < 8:
         raise AnalysisError("expected >= 8 extension call sites in digital_rf_hdf5.py, found %d" % mcalls)
@@ -736,6 +752,18 @@ def r5_interface_agreement(repo=None):
         raise AnalysisError("get_unix_time: Py_BuildValue or the Python unpacking not found")
     built = [a.path() for a in bv[0].args[1:]]
     fmt = bv[0].args[0].strval()
+    # the values may sit in a local struct (`ut.year`): compare the member / variable names
+    import re as _re
+    leaf = [_re.split(r"->|\.", b)[-1] if b else b for b in built]
+    if leaf != built and len(set(leaf)) == len(leaf):
+        if leaf == tgt:
+            built = leaf
+        elif sorted(x or "" for x in leaf) == sorted(tgt):
+            built = leaf          # same names in another order: reported below
+        else:
+            raise AnalysisError("get_unix_time: the values built into the tuple (%s) cannot be matched by name with the Python unpacking %s" % (built, tgt))
+    elif built != tgt and sorted(x or "" for x in built) != sorted(tgt):
+        raise AnalysisError("get_unix_time: the values built into the tuple (%s) cannot be matched by name with the Python unpacking %s" % (built, tgt))
     if built == tgt and len(fmt) == len(built):
         r.ok("%s:%s Py_BuildValue(%r) vs %s:%s" % (C_EXT, bv[0].line, fmt, m.rel, gu.lineno),
              "tuple built as %s and unpacked into the same names" % built)
